@@ -620,7 +620,7 @@ def frag_cases(mcs, name, prop="C09"):
     cases = []
     for i, c in enumerate(mcs):
         d = {"id": "%s-%d" % (name, i), "prop": prop, "file": c["file"], "expect_ok": True,
-             "info": {k: c[k] for k in ("delivery", "base", "durMode", "ctsMode", "tfdtV", "nfrag", "ntracks")}}
+             "info": {k: c[k] for k in ("delivery", "base", "durMode", "ctsMode", "tfdtV", "nfrag", "ntracks", "mdatFirst")}}
         if c["delivery"] == "split":
             d["init"] = c["init"]
         cases.append(d)
@@ -648,11 +648,15 @@ def c09(prop, tier, replay):
            "actions": ra["actions"], "wall": round(ra["wall"], 1)}
     st, mcs = gen_mc("MC_Frag", "MC_Frag_q" if tier == "quick" else "MC_Frag_t", wd, tier, need_actions=("Render",))
     st2, mcs2 = gen_mc("MC_Frag", "MC_Frag_trex", wd, tier, need_actions=("Render",))
-    cases = frag_cases(mcs, "fr") + frag_cases(mcs2, "frtrex")
+    # duration sources that change from fragment to fragment; media data before the moof
+    st3, mcs3 = gen_mc("MC_Frag", "MC_Frag_mix", wd, tier, need_actions=("Render",))
+    st4, mcs4 = gen_mc("MC_Frag", "MC_Frag_mf", wd, tier, need_actions=("Render",))
+    cases = frag_cases(mcs, "fr") + frag_cases(mcs2, "frtrex") + frag_cases(mcs3, "frmix") + frag_cases(mcs4, "frmf")
     res = validate_sharded("Trace_Read", cases, wd, "frag", 6 if tier == "quick" else 16, runner="read-run")
-    report_read(prop, tier, res, cases, [sta, st, st2], t0, known, "model_checking",
-                "fragmented movies: fragment structures (1-3 fragments, 1-2 tracks, empty runs, late tracks) x 5 base-offset modes x "
-                "3 duration modes x 3 composition-offset modes x 32/64-bit tfdt x movie-level defaults x 2 deliveries, rendered by the "
+    report_read(prop, tier, res, cases, [sta, st, st2, st3, st4], t0, known, "model_checking",
+                "fragmented movies: fragment structures (1-3 fragments, 1-2 tracks, empty runs, late tracks) x 6 base-offset modes x "
+                "3 duration modes (+ 3 modes that change the source from fragment to fragment) x 3 composition-offset modes x 32/64-bit tfdt x "
+                "movie-level defaults x media data after / before the moof x 2 deliveries, rendered by the "
                 "specification; distinct = distinct file bytes; non-trivial = more than one fragment or track",
                 sum(1 for c in cases if c["info"]["nfrag"] > 1 or c["info"]["ntracks"] > 1),
                 {"distinct_files": distinct_files(cases), "exhaustive": True})
@@ -690,12 +694,12 @@ def c12(prop, tier, replay):
         report_read(prop, tier, res, cases, [], t0, known, "model_checking", "replay", 2)
         return
     stats, cases = [], []
-    for b in ("plain", "frag", "meta"):
+    for b in ("plain", "frag", "fragmf", "meta"):
         if not os.path.exists(os.path.join(SPEC, "MC_Layout_%s1.cfg" % b)):
             continue
         st, mcs = gen_mc("MC_Layout", "MC_Layout_%s1" % b, wd, tier, coverage=False)
         kinds = {o["op"] for c in mcs for o in c["ops"]}
-        if not {"free", "unk", "swap", "large", "spare"} <= kinds:
+        if not {"free", "unk", "swap", "large", "spare"} <= kinds | ({"swap"} if b.startswith("frag") else set()):
             raise ToolError("vacuity: layout operation kinds %s never applied in %s" % ({"free", "unk", "swap", "large", "spare"} - kinds, b))
         stats.append(st)
         cases += layout_cases(mcs, "ly1" + b)
@@ -704,8 +708,9 @@ def c12(prop, tier, replay):
         cases += layout_cases(mcs, "lyN" + b)
     res = validate_sharded("Trace_Read", cases, wd, "layout", 6 if tier == "quick" else 16, runner="read-run")
     report_read(prop, tier, res, cases, stats, t0, known, "model_checking",
-                "physical layouts of fixed logical movies (2-track sample-table movie, fragmented movie, movie with metadata): every single "
-                "applicable layout operation (free/unknown insertion at every position of every iterating container, sibling swaps, 64-bit "
+                "physical layouts of fixed logical movies (2-track sample-table movie, fragmented movie with the media data after / before "
+                "each moof): every single "
+                "applicable layout operation (free/unknown insertion with 32- and 64-bit headers at every position of every iterating container, sibling swaps, 64-bit "
                 "headers, spare bytes) exhaustively, and seeded random sequences of up to 3 operations; distinct = distinct file bytes; "
                 "non-trivial = at least one operation applied",
                 sum(1 for c in cases if len(c["ops"]) >= 1), {"distinct_files": distinct_files(cases)})
